@@ -340,3 +340,72 @@ func VerifC07SkiplistConcurrent() {
 	c07Concurrent(NewSkiplist(1<<20), "skiplist")
 	sym.Reached("end")
 }
+
+// ---- wide nodes: Node48 / Node256 ----
+//
+// 20 (thorough 50) entries with distinct CONCRETE one-byte user keys, 0x00 and
+// 0xFF among them, two versions for some, are inserted in a scrambled order;
+// one node grows to Node48 (thorough: Node256). The probe (byte and version)
+// byte is enumerated over all 256 values, its version is symbolic: Search,
+// forward/reverse Seek.
+func c07Wide(idx c07Index, which string) {
+	k := 20
+	if sym.Tier() > 0 {
+		k = 50
+	}
+	var spec []c07Rec
+	for i := 0; i < k; i++ {
+		b := byte((i*37 + 11) % 251)
+		switch i {
+		case 3:
+			b = 0xFF
+		case 7:
+			b = 0x00
+		}
+		ver := uint64(2 + i%2)
+		key := kv.InternalKey(kv.CFDefault, []byte{b}, ver)
+		idx.Add(&kv.Entry{Key: key, Value: []byte{b}, Version: ver})
+		spec = c07Insert(spec, c07Rec{key: key, val: b})
+	}
+	// the probe byte is enumerated (a symbolic index into the 256-entry child
+	// table is beyond the solver), the probe version is symbolic
+	probe := kv.InternalKey(kv.CFDefault, []byte{byte(sym.Int("probe_byte", 0, 255))}, uint64(sym.SymInt("probe_version", 1, 4)))
+	want, found := c07Lookup(spec, probe)
+	got := idx.Search(probe)
+	if found {
+		sym.Assert(len(got.Value) == 1 && got.Value[0] == want, which+"-search-returns-the-first-entry-at-or-above-the-probe")
+	} else {
+		sym.Assert(len(got.Value) == 0, which+"-search-returns-the-first-entry-at-or-above-the-probe")
+	}
+	asc := sym.Int("ascending", 0, 1) == 1
+	it := idx.NewIterator(&Options{IsAsc: asc})
+	it.Seek(probe)
+	wi := -1
+	if asc {
+		for i := range spec {
+			if c07Cmp(spec[i].key, probe) >= 0 {
+				wi = i
+				break
+			}
+		}
+	} else {
+		for i := len(spec) - 1; i >= 0; i-- {
+			if c07Cmp(spec[i].key, probe) <= 0 {
+				wi = i
+				break
+			}
+		}
+	}
+	if wi < 0 {
+		sym.Assert(!it.Valid(), which+"-seek-lands-on-the-first-entry-at-or-after-the-target")
+	} else {
+		sym.Assert(it.Valid(), which+"-seek-lands-on-the-first-entry-at-or-after-the-target")
+		sym.Assert(sym.BytesEq(it.Item().Entry().Key, spec[wi].key), which+"-seek-lands-on-the-first-entry-at-or-after-the-target")
+	}
+	_ = it.Close()
+}
+
+func VerifC07ARTWide() {
+	c07Wide(NewART(1<<20), "art")
+	sym.Reached("end")
+}
